@@ -179,11 +179,14 @@ class Rec:
         rec = self
 
         def build(message):
+            # ids as handed over by send(): the RTU framer's buildPacket overwrites transaction_id with the unit id
+            s = {"for": rec.cur, "tid": int(message.transaction_id), "uid": int(message.unit_id),
+                 "fc": int(message.function_code),
+                 "code": getattr(message, "exception_code", None) if int(message.function_code) >= 0x80 else None,
+                 "dest": None}
             pdu = real(message)
-            rec.sent.append({"for": rec.cur, "tid": int(message.transaction_id), "uid": int(message.unit_id),
-                             "fc": int(message.function_code),
-                             "code": getattr(message, "exception_code", None) if int(message.function_code) >= 0x80 else None,
-                             "dest": None, "bytes": bytes(pdu)})
+            s["bytes"] = bytes(pdu)
+            rec.sent.append(s)
             return pdu
         framer.buildPacket = build
 
